@@ -5,7 +5,9 @@
 (* keyper "A" (the partition and range size of the behaviour) and the      *)
 (* reference keyper "B" (every head, range 1).  Lines, in order:           *)
 (*   [k |-> "new"]                          a new behaviour starts         *)
-(*   [k |-> "sync", who, cfg, blk, canon, states, ret]   one real call:    *)
+(*   [k |-> "sync", who, cfg, blk, canon, states, ret, fault, var]         *)
+(*        one real call (fault: a fault was injected; var: a variant of   *)
+(*        the step that follows, executed from the same database state):   *)
 (*        states = <<pre, committed states...>> projected to               *)
 (*        [synced, regs <<[key,num,bid,exp,dec]>>, fired <<[key,num,bid]>>] *)
 (* The fold keeps, per keyper, the last state and the committed positions  *)
@@ -60,13 +62,16 @@ TNext ==
                 same  == C16_Same(blk, line.canon, first, fin, cuts2[w], cur[Other(w)], cuts2[Other(w)])
                 fails == chk.fail \cup (IF same THEN {} ELSE {"C16_Same"}) \cup
                          (IF line.ret \in {"ok", "err"} THEN {} ELSE {"C16_NoPanic"})
-                conf  == /\ TRun(line.cfg, blk, line.canon, sts[1]) = SubSeq(sts, 2, Len(sts))
-                         /\ line.ret = "ok"
+                full  == TRun(line.cfg, blk, line.canon, sts[1])
+                obs   == SubSeq(sts, 2, Len(sts))
+                conf  == /\ \/ obs = full /\ (line.ret = "ok" \/ line.fault)          \* (commit-then-error is a fault too)
+                            \/ line.fault /\ line.ret = "err" /\ Len(obs) < Len(full) /\ obs = SubSeq(full, 1, Len(obs))
                          /\ sts[1] = cur[w]          \* the call started where the previous one ended
             IN /\ viol' = viol \cup {<<l, m>> : m \in fails}
                /\ drift' = drift \cup (IF conf THEN {} ELSE {l})
-               /\ cur' = [cur EXCEPT ![w] = fin]
-               /\ cuts' = cuts2
+               (* a variant (the same step under another injected fault) is checked but not continued *)
+               /\ cur' = IF line.var THEN cur ELSE [cur EXCEPT ![w] = fin]
+               /\ cuts' = IF line.var THEN cuts ELSE cuts2
                /\ tree' = blk
 
 TSpec == TInit /\ [][TNext]_tvars
